@@ -13,9 +13,12 @@ class ToolError(Exception):
 
 def cargo_build(profile="dev"):
     env = dict(os.environ, CARGO_NET_OFFLINE="true")
+    # the harness binary must land where VFH points, whatever the caller's environment says
+    for k in ("CARGO_TARGET_DIR", "CARGO_BUILD_TARGET_DIR", "RUSTFLAGS", "CARGO_ENCODED_RUSTFLAGS"):
+        env.pop(k, None)
     if not os.path.exists(VERIF + "/harness/Cargo.lock"):
         shutil.copy("/repo/Cargo.lock", VERIF + "/harness/Cargo.lock")
-    cmd = ["cargo", "build", "--offline"] + (["--profile", profile] if profile != "dev" else [])
+    cmd = ["cargo", "build", "--offline", "--target-dir", VERIF + "/target/harness"] + (["--profile", profile] if profile != "dev" else [])
     p = subprocess.run(cmd, cwd=VERIF + "/harness", env=env, capture_output=True, text=True)
     if p.returncode != 0:
         raise ToolError("harness does not build against /repo:\n" + p.stderr[-4000:])
